@@ -55,6 +55,13 @@ impl CliResult {
 
 /// Run a command with the given stdin bytes, an optional stack limit (bytes) and a wall-clock cap.
 pub fn run_cmd(program: &str, args: &[String], stdin: Option<&[u8]>, stack_limit: Option<u64>, timeout: Duration) -> CliResult {
+    run_cmd_chunked(program, args, stdin, stack_limit, timeout, None)
+}
+
+/// As `run_cmd`; with `chunk = Some((n, pause))` the stdin bytes are written n at a time with a
+/// pause after each write, so that the reader's `read` calls end at (almost surely) every multiple
+/// of n - the environment answer "short read" made explicit.
+pub fn run_cmd_chunked(program: &str, args: &[String], stdin: Option<&[u8]>, stack_limit: Option<u64>, timeout: Duration, chunk: Option<(usize, Duration)>) -> CliResult {
     use std::os::unix::process::{CommandExt, ExitStatusExt};
     let mut cmd = Command::new(program);
     cmd.args(args).env("RUST_BACKTRACE", "0").env("NO_COLOR", "1").stdout(Stdio::piped()).stderr(Stdio::piped());
@@ -80,7 +87,20 @@ pub fn run_cmd(program: &str, args: &[String], stdin: Option<&[u8]>, stack_limit
     };
     if let Some(bytes) = stdin {
         if let Some(mut si) = child.stdin.take() {
-            let _ = si.write_all(bytes);
+            match chunk {
+                None => {
+                    let _ = si.write_all(bytes);
+                }
+                Some((n, pause)) => {
+                    for part in bytes.chunks(n.max(1)) {
+                        if si.write_all(part).is_err() {
+                            break;
+                        }
+                        let _ = si.flush();
+                        std::thread::sleep(pause);
+                    }
+                }
+            }
         }
     }
     // read output on helper threads so a full pipe cannot block the child
